@@ -77,8 +77,9 @@ def run(ck: Check):
         else:
             r, a, k = min(not_reach, key=lambda x: len(x[0]))
             ck.report_violation({"kind": "hypothesis-not-met", "family": "run",
-                                 "theorem": "NaijaVerif.Props.C06Accepted.c06_pipeline (hypothesis PlanReach / "
-                                            "FactsCoverCalls; c06_accepted, c06_source alike)",
+                                 "theorem": "NaijaVerif.Props.C06Accepted.c06_pipeline_unconditional proves PlanReach for "
+                                            "the MODEL's plan on the model's facts; the REAL plan / annotations fail it "
+                                            "(c06_accepted, c06_source take it as a hypothesis)",
                                  "what": "the plan of the real analyses does not keep what reachable code calls on an "
                                          "accepted program (Bridge.planReaches / numBlock evaluated by the driver: " + k +
                                          "); no crashing program found",
@@ -93,9 +94,11 @@ def plan_hypothesis(ck, streams):
       kept   Bridge.keptBlock plan root       the former, too strong hypothesis PlanKeepsCalls (statistic);
       reach  Bridge.planReaches plan root     PlanReach with the canonical K (closure of the call annotations): the
                                               hypothesis of c06_accepted / c06_source / c06_pipeline;
-      num    Bridge.numBlock root             every statement / definition numbered (first part of FactsCoverCalls,
-                                              c06_pipeline_reach; the other two parts — ownOkB, brClosed — are
-                                              evaluated on every case of the plan family, C03).
+      num    Bridge.numBlock root             every statement / definition numbered.
+    For the resolver MODEL's output PlanReach of the model's own plan is a theorem (c06_pipeline_unconditional:
+    resolve_num, resolve_ownOk, bodyReachable_closed, analysis_plan_reach); evaluating reach / num on the REAL plan
+    and annotations is the tie of that theorem to the code (ownOkB / brClosed of the real facts are evaluated on
+    every case of the plan family, C03).
     Returns ([(request, impl answer)] with kept=0, [(request, impl answer, driver answer)] with reach=0 or num=0)."""
     not_kept, not_reach = [], []
     for _kind, s in streams.items():
